@@ -12,7 +12,11 @@ Record nobs := {
   b_prev : list nat }.                      (* ... and before the event *)
 
 Inductive c13case :=
-| KNet (steps : list (nevent * nobs)).
+| KNet (steps : list (nevent * nobs))
+(* a network too large for the whole-lookup model (replies are truncated to the 20 closest): only the
+   connectivity verdict is computed, on the final routing tables (main and signed-peers table together: both
+   feed a node's find_node replies) of all (live, server-mode) nodes *)
+| KBig (tables : list (list nat)).
 
 Definition set_eqb (a b : list nat) : bool := forallb (fun x => mem x b) a && forallb (fun x => mem x a) b.
 
@@ -157,8 +161,29 @@ Fixpoint run13_pb (ps : pstate) (before : list (list nat * list nat)) (crashed :
       (c13 && (c01 || is_join) && ok, (is_join && negb c01) || known)
   end.
 
+(* strongly connected: everybody is reachable from node 0 and node 0 is reachable from everybody.
+   Sets of nodes are bit vectors here (the networks have up to a few hundred nodes). *)
+Fixpoint orv (a b : list bool) : list bool :=
+  match a, b with
+  | x :: a', y :: b' => (x || y) :: orv a' b'
+  | _, _ => a
+  end.
+Definition row_of (n : nat) (t : list nat) : list bool := map (fun j => mem j t) (seq 0 n).
+Definition big_step (rows : list (list bool)) (v : list bool) : list bool :=
+  fold_left (fun acc (p : bool * list bool) => if fst p then orv acc (snd p) else acc) (combine v rows) v.
+Definition big_reach (rows : list (list bool)) (from : nat) : list bool :=
+  iter (length rows) (big_step rows) (map (Nat.eqb from) (seq 0 (length rows))).
+Definition transpose_rows (n : nat) (tabs : list (list nat)) : list (list bool) :=
+  map (fun i => map (fun t => mem i t) tabs) (seq 0 n).
+Definition big_pb (tabs : list (list nat)) : bool :=
+  let n := length tabs in
+  forallb (fun b => b) (big_reach (map (row_of n) tabs) 0)
+  && forallb (fun b => b) (big_reach (transpose_rows n tabs) 0)
+  && forallb (fun t => forallb (fun j => Nat.ltb j n) t) tabs.
+
 Definition check13 (c : c13case) : list N :=
   match c with
+  | KBig tabs => if big_pb tabs then [] else [2%N]
   | KNet steps =>
       let '(ok, known) := run13_pb [] [] false steps in
       (if run13_model [] steps then [] else [1%N]) ++ (if ok then [] else [2%N]) ++ (if known then [123%N] else [])
